@@ -4,6 +4,7 @@ package main
 // evaluated over the symbolic state with Go's own machine semantics.
 
 import (
+	"os"
 	"sort"
 	"fmt"
 	"go/ast"
@@ -212,6 +213,9 @@ func (x *Exec) evalClause(env *Env, cl *Clause) string {
 			panic(r)
 		}
 	}()
+	if os.Getenv("GOVC_DEBUG") != "" {
+		fmt.Fprintf(os.Stderr, "evalClause %s %s: %s\n", x.key, cl.Line, truncate(cl.Text, 100))
+	}
 	v := env.eval(e, types.Typ[types.Bool])
 	if !isBool(v.T) {
 		panic(contractError{fmt.Sprintf("%s: contract clause is not boolean: %s", cl.Line, cl.Text)})
@@ -512,6 +516,12 @@ func (e *Env) ident(id *ast.Ident, hint types.Type) Val {
 		if rs, ok := e.loop.stmt.(*ast.RangeStmt); ok {
 			// "rangeidx" names the number of elements already processed when the loop has no (named) key
 			if k, ok := rs.Key.(*ast.Ident); (ok && k.Name == id.Name && k.Name != "_") || id.Name == "rangeidx" {
+				if rng := stringRangeOf(e.loop); rng != nil {
+					// range over string: the byte position the next iteration starts at
+					if pv, ok := e.st.cells[e.x.strPosKey(rng)]; ok && pv.S != "" {
+						return Val{T: types.Typ[types.Int], S: pv.S}
+					}
+				}
 				for _, in := range e.loop.header.Instrs {
 					if u, ok := in.(*ssa.UnOp); ok && u.Op == token.MUL {
 						if a, ok := u.X.(*ssa.Alloc); ok && a.Comment == "rangeindex" {
